@@ -16,10 +16,10 @@ import (
 )
 
 type c17case struct {
-	Kind  string     `json:"kind"`
-	Dec   *c17dec    `json:"dec,omitempty"`
-	Store *c17store  `json:"store,omitempty"`
-	Cer   *c17cer    `json:"cer,omitempty"`
+	Kind  string    `json:"kind"`
+	Dec   *c17dec   `json:"dec,omitempty"`
+	Store *c17store `json:"store,omitempty"`
+	Cer   *c17cer   `json:"cer,omitempty"`
 }
 
 func init() {
